@@ -80,6 +80,42 @@ class ValueScalar(Value):
         v = int(rhs)
         return ValueScalar(self.v - v)
     
+    def __mul__(self, rhs):
+        v = int(rhs)
+        return ValueScalar(self.v * v)
+    
+    def __truediv__(self, rhs):
+        # Integer division, as the solver does
+        v = int(rhs)
+        return ValueScalar(self.v // v)
+    
+    def __floordiv__(self, rhs):
+        v = int(rhs)
+        return ValueScalar(self.v // v)
+    
+    def __mod__(self, rhs):
+        v = int(rhs)
+        return ValueScalar(self.v % v)
+    
+    def __or__(self, rhs):
+        v = int(rhs)
+        return ValueScalar(self.v | v)
+    
+    def __xor__(self, rhs):
+        v = int(rhs)
+        return ValueScalar(self.v ^ v)
+    
+    def __lshift__(self, rhs):
+        v = int(rhs)
+        return ValueScalar(self.v << v)
+    
+    def __rshift__(self, rhs):
+        v = int(rhs)
+        return ValueScalar(self.v >> v)
+    
+    def __invert__(self):
+        return ValueScalar(~self.v)
+    
     def __getitem__(self, rng):
         print("getitem")
 
